@@ -193,7 +193,7 @@ def run(ctx):
                     # native confirmation: the same call on the compiled crate from the same selection state and counter value
                     state = 0 if sel == (None, None) else (1 if sel == (0, None) else 2)
                     confirmed = None
-                    for mode in ("explicit", "implicit"):
+                    for mode in ("explicit", "implicit", "lastid"):
                         real = rp.ask("builder_ids %s %d %d %s" % (name, state, w, mode))
                         if "error" in real:
                             continue
@@ -236,11 +236,19 @@ def run(ctx):
         mod0 = b0.fields[bidx["module"]]
         mf0 = list(mod0.fields)
         mf0[tgv] = base.vec(prefix)
+        # ... and a decoration and a debug name whose target id is arbitrary (possibly the id of the declaration about to be made):
+        # what else the module holds must not influence a type request
+        dclass = sym.Adt("grammar::Instruction", None, [sym.StrV("Decorate"), z3.BitVecVal(71, 32), sym.Sym("c", "&[Capability]"), sym.Sym("e", "&[&str]"), sym.Sym("o", "&[LogicalOperand]")])
+        nclass = sym.Adt("grammar::Instruction", None, [sym.StrV("Name"), z3.BitVecVal(5, 32), sym.Sym("c", "&[Capability]"), sym.Sym("e", "&[&str]"), sym.Sym("o", "&[LogicalOperand]")])
+        for fld_, cls_, ops__ in (("annotations", "dclass", [sym.Adt("dr::constructs::Operand", "IdRef", [z3.BitVec("deco_target", 32)]), sym.Adt("dr::constructs::Operand", "Decoration", [z3.BitVec("deco", 32)])]),
+                                  ("debug_names", "nclass", [sym.Adt("dr::constructs::Operand", "IdRef", [z3.BitVec("name_target", 32)]), sym.Adt("dr::constructs::Operand", "LiteralString", [sym.StrV("n")])])):
+            if fld_ in fields["Module"]:
+                mf0[fields["Module"].index(fld_)] = base.vec([sym.Adt("constructs::Instruction", None, [sym.Ref(("h", cls_), ()), base.none(), base.none(), base.vec(ops__)])])
         bf0 = list(b0.fields)
         bf0[bidx["module"]] = sym.Adt(mod0.ty, None, mf0)
         b0 = sym.Adt(b0.ty, None, bf0)
         try:
-            r1 = [r for r in eng.run(fn, [sym.Ref(("h", "b"), (), True)] + a1, mem={("h", "b"): b0, ("h", "cclass"): cclass}, pc=list(pre)) if r.status == "return"]
+            r1 = [r for r in eng.run(fn, [sym.Ref(("h", "b"), (), True)] + a1, mem={("h", "b"): b0, ("h", "cclass"): cclass, ("h", "dclass"): dclass, ("h", "nclass"): nclass}, pc=list(pre)) if r.status == "return"]
         except mir.Unsupported as ex:
             ctx.ob("types/%s/encodable" % name, None, str(ex)[:300])
             continue
@@ -325,10 +333,14 @@ def run(ctx):
                                 ctx.violation(role, msg + "; on the compiled crate: %s" % real, {"cmd": "builder_ids %s 0 50 explicit" % name, "real": real})
                         else:
                             # native confirmation: the identical implicit request twice must give one declaration and the same id
-                            real = rp.ask("builder_type_twice %s" % name)
-                            conforming = "error" in real or ("panic" not in real and real.get("first") == real.get("second") and real.get("n1") == real.get("n0", 0) + 1 and real.get("n2") == real.get("n1"))
-                            if name.endswith("_id") and "error" not in real and "panic" not in real:
-                                conforming = real.get("first") == real.get("second") and real.get("n2") == real.get("n1")
+                            conforming = True
+                            for mode_ in ("", " decorated"):
+                                real = rp.ask("builder_type_twice %s%s" % (name, mode_))
+                                conforming = "error" in real or ("panic" not in real and real.get("first") == real.get("second") and real.get("n1") == real.get("n0", 0) + 1 and real.get("n2") == real.get("n1"))
+                                if name.endswith("_id") and "error" not in real and "panic" not in real:
+                                    conforming = real.get("first") == real.get("second") and real.get("n2") == real.get("n1")
+                                if not conforming:
+                                    break
                             if conforming:
                                 ctx.inconclusive.append((tag, "model-only deviation (%s); the compiled crate answers %s" % (what, real)))
                             else:
